@@ -16,7 +16,7 @@ EXTENDS Naturals, Sequences, FiniteSets
 
 BI == 1..4        \* 1 pickle.load  2 pickle.loads  3 _pickle.load  4 _pickle.loads
 
-Ghost0 == [g |-> FALSE, m |-> FALSE, open |-> <<>>, mixed |-> FALSE]
+Ghost0 == [g |-> FALSE, m |-> FALSE, a |-> FALSE, open |-> <<>>, mixed |-> FALSE]    \* a: the active ML environment has additions
 
 \* protection expected from a ghost state.  The global check and the context are documented to
 \* cover pickle.load only; the ML environment covers all four.
@@ -30,11 +30,14 @@ LowerOK(blocks, x) ==
   /\ x.m => \A i \in BI : blocks[i]
   /\ ((x.g \/ x.open # <<>>) /\ ~x.mixed) => blocks[1]
 MLOK(mlb, x) == x.m => \A i \in BI : mlb[i]
+\* `addb` is observed with a probe naming a global that only an activation WITH additions permits: an environment
+\* activated without additions must refuse it, whatever earlier activations allowed
+AddOK(addb, x) == (x.m /\ ~x.a) => \A i \in BI : addb[i]
 
 \* P3: after removal with no context open all four bindings are the original functions
 RemoveOK(orig, x) == x.open = <<>> => \A i \in BI : orig[i]
 
-Glob(x, g2, m2) == [x EXCEPT !.g = g2, !.m = m2, !.mixed = (x.mixed \/ x.open # <<>>)]
+Glob(x, g2, m2, a2) == [x EXCEPT !.g = g2, !.m = m2, !.a = a2, !.mixed = (x.mixed \/ x.open # <<>>)]
 
 \* P2 (exactness on leaving a context)
 ExitSucc(x, blocks) ==
@@ -44,14 +47,15 @@ ExitSucc(x, blocks) ==
            gs   == IF x.mixed THEN {x.g} \cup {x.open[i][1] : i \in DOMAIN x.open} ELSE {x.g}
            ms   == IF x.mixed THEN {x.m} \cup {x.open[i][2] : i \in DOMAIN x.open} ELSE {x.m}
            cs   == IF n2 = 0 THEN {FALSE} ELSE IF x.mixed THEN BOOLEAN ELSE {TRUE}
-       IN {[g |-> g2, m |-> m2, open |-> rest, mixed |-> (IF n2 = 0 THEN FALSE ELSE x.mixed)] :
+       IN {[g |-> g2, m |-> m2, a |-> (x.a /\ m2), open |-> rest, mixed |-> (IF n2 = 0 THEN FALSE ELSE x.mixed)] :
               <<g2, m2>> \in {p \in gs \X ms : \E c \in cs : blocks = Exp(p[1], p[2], c)}}
 
-Succ(x, op, blocks, orig, mlb) ==
-  LET keep(y) == IF LowerOK(blocks, y) /\ MLOK(mlb, y) THEN {y} ELSE {} IN
-  CASE op = "arm" -> keep(Glob(x, TRUE, x.m))
-    [] op \in {"activate", "activate_add"} -> keep(Glob(x, x.g, TRUE))
-    [] op = "remove" -> LET y == Glob(x, FALSE, FALSE) IN IF RemoveOK(orig, y) THEN keep(y) ELSE {}
+Succ(x, op, blocks, orig, mlb, addb) ==
+  LET keep(y) == IF LowerOK(blocks, y) /\ MLOK(mlb, y) /\ AddOK(addb, y) THEN {y} ELSE {} IN
+  CASE op = "arm" -> keep(Glob(x, TRUE, x.m, x.a))
+    [] op = "activate" -> keep(Glob(x, x.g, TRUE, FALSE))
+    [] op = "activate_add" -> keep(Glob(x, x.g, TRUE, TRUE))
+    [] op = "remove" -> LET y == Glob(x, FALSE, FALSE, FALSE) IN IF RemoveOK(orig, y) THEN keep(y) ELSE {}
     [] op = "enter" -> keep([x EXCEPT !.open = Append(x.open, <<x.g, x.m>>)])
     [] op \in {"exit", "exit_exc"} -> UNION {keep(y) : y \in ExitSucc(x, blocks)}
     [] OTHER -> {}
